@@ -8,6 +8,8 @@ import (
 	"bytes"
 	"fmt"
 	"math/big"
+	"os"
+	"path/filepath"
 	"sort"
 
 	"github.com/btcsuite/btcd/btcec/v2"
@@ -20,6 +22,8 @@ import (
 	"github.com/dominant-strategies/go-quai/crypto"
 	"github.com/dominant-strategies/go-quai/crypto/multiset"
 	"github.com/dominant-strategies/go-quai/ethdb"
+	"github.com/dominant-strategies/go-quai/ethdb/leveldb"
+	"github.com/dominant-strategies/go-quai/ethdb/pebble"
 	"github.com/dominant-strategies/go-quai/log"
 	"verifharness/hlib"
 )
@@ -64,12 +68,51 @@ func (img image) apply(ops []topOp, k int) image {
 	return o
 }
 
-func (img image) open() ethdb.Database {
-	db := rawdb.NewMemoryDatabase(logger)
-	for k, v := range img {
-		db.Put([]byte(k), v)
+// imgBackend selects where database images are materialised: "mem" (memorydb), "leveldb" or
+// "pebble" (a fresh directory per image; the engine is closed and re-opened after the image
+// has been written, i.e. the node below really starts from what the engine recovers).
+var imgBackend = "mem"
+var scratchDir string
+var scratchSeq int
+
+func newEngine(dir string) (ethdb.KeyValueStore, error) {
+	if imgBackend == "pebble" {
+		return pebble.New(dir, 16, 16, "", false, logger, loc)
 	}
-	return db
+	return leveldb.New(dir, 16, 16, "", false, logger, loc)
+}
+
+func (img image) open() *logDB {
+	if imgBackend == "mem" {
+		db := rawdb.NewMemoryDatabase(logger)
+		for k, v := range img {
+			db.Put([]byte(k), v)
+		}
+		return newLogDB(db)
+	}
+	scratchSeq++
+	dir := filepath.Join(scratchDir, fmt.Sprintf("img%d", scratchSeq))
+	os.MkdirAll(dir, 0o755)
+	kv, err := newEngine(dir)
+	if err != nil {
+		panic(err)
+	}
+	for k, v := range img {
+		if err := kv.Put([]byte(k), v); err != nil {
+			panic(err)
+		}
+	}
+	kv.Close()
+	kv, err = newEngine(dir) // restart of the engine
+	if err != nil {
+		panic(err)
+	}
+	l := newLogDB(rawdb.NewDatabase(kv))
+	l.cleanup = func() {
+		kv.Close()
+		os.RemoveAll(dir)
+	}
+	return l
 }
 
 // flat returns the content of the unversioned key space ('ut' UTXOs and 'cl' lockups).
